@@ -38,14 +38,43 @@ class _Clock:
     def datetime_class(self):
         clock = self
 
+        def tick():
+            clock.reads += 1
+            v = clock.seq[min(clock.i, len(clock.seq) - 1)]
+            clock.i += 1
+            return v
+
         class _DT(_dt.datetime):
+            # whichever way the adapter asks for the time of day
             @classmethod
             def utcnow(cls):
+                return tick()
+
+            @classmethod
+            def now(cls, tz=None):
+                v = tick()
+                return v if tz is None else v.replace(tzinfo=_dt.timezone.utc).astimezone(tz)
+        # also usable where the adapter imported the module rather than the class
+        _DT.datetime, _DT.timezone, _DT.timedelta, _DT.UTC = _DT, _dt.timezone, _dt.timedelta, _dt.timezone.utc
+        return _DT
+
+    def time_module(self, real):
+        import calendar
+        clock = self
+
+        class _T:
+            def __getattr__(self, name):
+                return getattr(real, name)
+
+            def time(self):
                 clock.reads += 1
                 v = clock.seq[min(clock.i, len(clock.seq) - 1)]
                 clock.i += 1
-                return v
-        return _DT
+                return float(calendar.timegm(v.timetuple()))
+
+            def gmtime(self, secs=None):
+                return real.gmtime(self.time() if secs is None else secs)
+        return _T()
 
 
 class Check(CheckBase):
@@ -125,6 +154,9 @@ class Check(CheckBase):
         seq = [base + _dt.timedelta(seconds=i * r.choice([0, 1, 1, 2])) for i in range(600)]
         clock = _Clock(seq)
         orig_dt, s3c.datetime = s3c.datetime, clock.datetime_class()
+        orig_time = getattr(s3c, 'time', None)
+        if orig_time is not None and hasattr(orig_time, 'gmtime'):
+            s3c.time = clock.time_module(orig_time)
         # retry waits are virtual (I5)
         real_asyncio = backoff._async.asyncio
 
@@ -177,6 +209,8 @@ class Check(CheckBase):
             asyncio.run(go())
         finally:
             s3c.datetime = orig_dt
+            if orig_time is not None:
+                s3c.time = orig_time
             backoff._async.asyncio = real_asyncio
         counters['requests_verified'] = svc.verified
         counters['requests_total'] = len(svc.requests)
